@@ -106,6 +106,7 @@ fn center(code: i64) -> f64 {
 const STEP: f64 = 128e-7;
 
 fn decode(time: u32, reference: &[f64; 2], pkt: &[u8]) -> Result<Result<Flarm, String>, String> {
+    set_case_bytes(15, pkt);
     guarded(|| Flarm::from_record(time, reference, pkt).map_err(|e| e.to_string()))
 }
 
